@@ -36,11 +36,13 @@ func c17(c *Ctx) {
 	r.Rule("R-C17.1", "in SplitListener.Start every IngressConn whose receiver comes from the registry by client protocol or by the authenticated non-specific name is cut by ContainsKnownAlpnProto(negotiated)=true and HasPrefix(negotiated, fetch prefix)=false, with negotiated = the TLS state of the accepted protocol.Conn; the IngressConn on the unauthenticated entry is reachable only from the false edge of the first; receivers never come from the other class's registry key")
 	r.Rule("R-C17.2", "every connection returned by the base Accept is, on every path of the loop body, ingressed to exactly one sub-listener or closed exactly once (ownership dataflow)")
 	r.Rule("R-C17.3", "Start defers a Range over the registry that closes every sub-listener; both non-temporary exits cancel the listener's context before returning")
+	r.Rule("R-C17.6", "a failure of the base listener ends the accept loops: in InterceptingListener.Accept no return on the failure edge of l.baseLn.Accept() carries an error produced by temperror.New (SplitListener.Start retries on Temporary() errors and only closes its sub-listeners on a non-temporary one)")
 	r.Rule("R-C17.4", "MultiplexingListener.Accept returns the embedded *tls.Conn only if nativeConns is set and false and the value is a *protocol.Conn; otherwise the received value itself")
 	r.Rule("R-C17.5", "GetListener publishes through LoadOrStore and closes the loser; every value stored in the registry is a *MultiplexingListener (discharges the type assertions on registry values)")
 	r.NotDecided = append(r.NotDecided, "behaviour of connections already in flight at close", "assumption A3 (base TLS configuration lists no library-prefixed protocol)")
 	r.Assume = append(r.Assume, "A3: the application's base TLS configuration does not list library-prefixed protocol names")
 
+	c17BaseFailure(c)
 	S := c.need("R-C17.1", "net", "(*SplitListener).Start")
 	if S == nil {
 		return
@@ -603,4 +605,59 @@ func listenerSources(p *core.Prog, v ssa.Value, isConn func(ssa.Value) bool, dep
 	}
 	visit(v)
 	return keys
+}
+
+
+// c17BaseFailure: R-C17.6.
+func c17BaseFailure(c *Ctx) {
+	p, r := c.P, c.R
+	acc := c.need("R-C17.6", "protocol", "(*InterceptingListener).Accept")
+	if acc == nil {
+		return
+	}
+	name := core.FuncName(acc)
+	var base *ssa.Call
+	for _, ci := range core.AllCalls(acc) {
+		if ci.Common().IsInvoke() && ci.Common().Method.Name() == "Accept" && core.PathOf(ci.Common().Value).HasFields("baseLn") {
+			base, _ = ci.(*ssa.Call)
+		}
+	}
+	if base == nil {
+		r.Unk("R-C17.6", name+" base accept", p.Pos(acc.Pos()), "no l.baseLn.Accept() call")
+		return
+	}
+	okT, succ, _, _ := errTestEdges(base)
+	if !okT {
+		r.Unk("R-C17.6", name+" base accept error test", p.Pos(base.Pos()), "error of the base Accept is not tested")
+		return
+	}
+	// returns reachable after the base Accept without passing its success edge
+	fromBase := reachFrom(base.Block(), map[*ssa.BasicBlock]bool{succ: true})
+	n := 0
+	for i, ret := range core.Returns(acc) {
+		if !fromBase[ret.Block()] || ret.Block() == succ {
+			continue
+		}
+		n++
+		temp := ""
+		eachValue(ret.Results[1], func(x ssa.Value) {
+			for _, y := range flattenPhi(x) {
+				for {
+					if mi, ok := y.(*ssa.MakeInterface); ok {
+						y = mi.X
+						continue
+					}
+					break
+				}
+				if tc, _ := core.CallResult(y); tc != nil && core.CalleeName(tc.Common()) == mod+"/util/temperror.New" {
+					temp = p.Pos(tc.Pos())
+				}
+			}
+		}, mod+"/util/temperror.New")
+		r.Check(temp == "", "R-C17.6", fmt.Sprintf("%s base-failure return#%d", name, i), p.Pos(ret.Pos()), "listener-level failure is returned as a non-temporary error",
+			"a failure of the base listener is marked temporary (temperror.New at "+temp+"): SplitListener.Start retries forever and never closes its sub-listeners after the base listener is closed")
+	}
+	if n == 0 {
+		r.Unk("R-C17.6", name+" base-failure returns", p.Pos(base.Pos()), "none found")
+	}
 }
